@@ -756,6 +756,45 @@ def f_overlong_line_remainder():
     return a == b == [], f"the line in one piece delivers {a}; cut after the 70000 garbage characters it delivers {b} (a decoder rejects the whole line)"
 
 
+@finding("C12/delivery/line-limit-valid-sentence", "C12")
+def f_line_limit_valid_sentence():
+    """a sentence the decoder accepts, padded with blanks to more than the reader's 64 KiB limit: the decoder returns a message, the client drops the line"""
+    import nmea2000.ioclient as io_
+    from nmea2000.decoder import NMEA2000Decoder
+
+    async def run(line):
+        rd = asyncio.StreamReader()
+
+        async def fake_open(host, port):
+            return rd, _FakeWriter()
+        io_.asyncio.open_connection = fake_open
+        c = io_.ActisenseNmea2000Gateway("h", 1)
+        got = []
+
+        async def cb(m):
+            got.append(m.PGN)
+        c.set_receive_callback(cb)
+        await c.connect()
+        rd.feed_data(line)
+        await asyncio.sleep(0.05)
+        await c.close()
+        return got
+
+    sentence = b"A000057.055 09FF7 0FF00 3F9FDCFFFFFFFFFF"
+    out = {}
+    import asyncio as _a
+    real_open = _a.open_connection
+    try:
+        for n in (65536, 65537):
+            line = sentence + b" " * (n - len(sentence)) + b"\n"
+            ref = NMEA2000Decoder().decode_actisense_string(line.decode().strip())
+            out[n] = (None if ref is None else ref.PGN, _run(run(line), timeout=20))
+    finally:
+        _a.open_connection = real_open
+    ok = all(got == ([] if ref is None else [ref]) for ref, got in out.values())
+    return ok, "; ".join(f"line body of {n} bytes: decoder returns {ref}, client delivers {got}" for n, (ref, got) in out.items())
+
+
 @finding("C12/delivery/callback-cancelled-error", "C12")
 def f_callback_cancelled_error():
     """a receive callback that lets asyncio.CancelledError escape (it awaited a helper task that had been cancelled) ended the one consumer
